@@ -174,6 +174,22 @@ def run(run):
     run.check("R1", need <= bounds, "both merkle counts bounded by 255",
               key="sign_authorized|merkle|bounds", where=sa.loc(), message=f"255-bounds found on {sorted(bounds)}; the one-byte counts "
               f"{sorted(need)} need both")
+    # ... and the bound holds where the one-byte count is built (a negated guard also leaves a `> 255` fact at some raise site)
+    n_len_bytes = 0
+    for n in A.own_nodes(sa):
+        if isinstance(n, ast.Call) and isinstance(n.func, ast.Name) and n.func.id == "bytes" and len(n.args) == 1 and isinstance(n.args[0], ast.List) \
+                and len(n.args[0].elts) == 1 and isinstance(n.args[0].elts[0], ast.Call) and call_name(n.args[0].elts[0]) == "len":
+            for cn in ga.nodes_of(n):
+                lens = {Lsa.intexpr(ast.parse(x, mode="eval").body) for x in PV.expand_consistent(sa, D, n.args[0].elts[0], cn)}
+                if not (lens & need):
+                    continue
+                n_len_bytes += 1
+                texts = set(F.expanded(sa, D, cn, PV, canon=Lsa.intexpr))
+                okl = all(f"{t} <= 255" in texts or f"{t} < 256" in texts for t in lens)
+                run.check("R1", okl, f"`{sorted(lens)[0][:40]}` is at most 255 where its one-byte count is built", key=f"sign_authorized|merkle|bound-at-use|{sorted(lens)[0][:40]}",
+                          where=sa.loc(n), message=f"the one-byte count `{norm(n)[:60]}` is built without `{sorted(lens)[0]} <= 255` holding there: proofs within the bound would be "
+                          "refused (or the count would overflow its byte)")
+    run.floor("R1", "one-byte merkle counts", n_len_bytes, 2)
     par_try = [n for n in A.own_nodes(sa) if isinstance(n, ast.Try) and any(isinstance(x, ast.Raise) for x in ast.walk(n))]
     okb = False
     for t in par_try:
@@ -190,6 +206,65 @@ def run(run):
             got = _lay(run, PV, su, D, c.args[1], cn)
             run.check("R1", got == {"u8(1) | key_id.to_binary() | hex(hash)"}, "(5) path|hash layout", key="sign_unauthorized|layout", where=su.loc(c),
                       message=f"unauthorized message is {sorted(got)}; the firmware parses `u8(1) | path | hash`")
+    # the outcome of the single exchange, as a decision table (normal flow; the handlers' codes are C04's)
+    from sa.decide import Walker as _W, cmp_parts as _cmp, subst as _subst, completions as _compl
+    okop_, OPI_ = try_fold(P, ast.parse("self.OFF.OP", mode="eval").body, su, D)
+    stu = {"W": None}
+
+    def ures(e):
+        b = stu["W"]._bind or {}
+        for _ in range(6):
+            nm_ = {x.id for x in ast.walk(e) if isinstance(x, ast.Name)}
+            hit = {k: v for k, v in b.items() if k in nm_}
+            if not hit:
+                break
+            e = _subst(e, hit)
+        return e
+
+    def uatom(e):
+        cp = _cmp(e)
+        if cp is None:
+            return None
+        l, op, r = cp
+        if op in ("==", "!=") and isinstance(l, ast.Subscript) and try_fold(P, l.slice, su, D) == (True, OPI_):
+            x = ures(l.value)
+            try:
+                mv = P.const_eval(r, su.module, cls=D)
+            except (Unknown, AnalysisError):
+                mv = None
+            if isinstance(x, ast.Call) and call_name(x) == "_send_command" and isinstance(mv, EnumMember) and mv.name in ("BTC_TX", "SUCCESS"):
+                return (f"op {mv.name}", op == "==")
+        return None
+    Wu = _W(A, su, D, uatom, max_leaves=64)
+    stu["W"] = Wu
+    n_u = 0
+    for lf in Wu.walk(gs.entry):
+        unknown = sorted(k[1:] for k in lf.pc if isinstance(k, str) and k.startswith("?"))
+        where = su.loc(lf.node.ast) if lf.node.ast is not None else su.loc()
+        run.check("R1", not unknown, "sign_unauthorized decides on the answer's operation byte only", key=f"sign_unauthorized|flow|extra|{';'.join(unknown)[:50]}", where=where,
+                  message=f"sign_unauthorized decides on `{'`, `'.join(unknown)[:100]}`")
+        if unknown or lf.kind != "return" or lf.node.ast.value is None:
+            continue
+        v = lf.deep(lf.node.ast.value)
+        got = _strip(norm(v))
+        for val in _compl({k: b for k, b in lf.pc.items() if k in ("op BTC_TX", "op SUCCESS")}, ["op BTC_TX", "op SUCCESS"], lambda v_: not (v_["op BTC_TX"] and v_["op SUCCESS"])):
+            n_u += 1
+            if val["op BTC_TX"]:
+                w = "(False, self.RESPONSE.SIGN.ERROR_HASH)"
+            elif not val["op SUCCESS"]:
+                w = "(False, self.RESPONSE.SIGN.ERROR_UNEXPECTED)"
+            else:
+                w = None
+            desc = f"device asks for the transaction: {val['op BTC_TX']}, reports success: {val['op SUCCESS']}"
+            if w is not None:
+                run.check("R1", got == _strip(w), f"[{desc}] -> {w}", key=f"sign_unauthorized|flow|{val['op BTC_TX']}|{val['op SUCCESS']}", where=where,
+                          message=f"sign_unauthorized, case [{desc}]: returns `{got[:80]}`, expected `{w}`")
+            else:
+                oks = re.fullmatch(r"\(True, HSM2DongleSignature\(self\._send_command\(self\.CMD\.SIGN, .*\)\[self\.OFF\.DATA:\]\)\)", got) is not None
+                run.check("R1", oks and "op SUCCESS" in lf.pc and "op BTC_TX" in lf.pc, f"[{desc}] -> (True, the answer's signature)", key="sign_unauthorized|flow|success", where=where,
+                          message=f"sign_unauthorized, case [{desc}]: returns `{got[:100]}`, expected (True, HSM2DongleSignature(<answer>[DATA:])): a signature the device produced "
+                                  "would be reported as a failure (or a failure as success)")
+    run.floor("R1", "outcome cases of sign_unauthorized", n_u, 3)
     # to_binary
     B = P.cls("comm.bip32.BIP32Path")
     tb = P.method(B, "to_binary")
